@@ -65,3 +65,8 @@ func init() {
 	props["C14"] = &propInfo{engine: "B", level: "exploration", minOutcomes: 2, mustOutcomes: []string{"raw-untouched", "string"},
 		assume: []string{"the text of a value is fmt.Sprint of it (2 for 1+1, 7 for the harness tick function)", "literals with unbalanced markers or ill-formed expressions are only required to yield a string without panic, endless loop or evaluation of substituted data"}}
 }
+
+func init() {
+	props["C08"] = &propInfo{engine: "B", level: "exploration", minOutcomes: 1, mustOutcomes: []string{"roundtrip-ok"},
+		assume: []string{"tree equality = node kind, token value, identifier flag, raw-vs-interpolating flag of strings and child structure; positions, comments and blank lines are ignored"}}
+}
